@@ -384,7 +384,7 @@ func (eng *Engine) verifyFunc(key string, con *Contract, bound int) (res *FuncRe
 func (x *Exec) run() {
 	fn, con := x.fn, x.con
 	st := &State{env: map[ssa.Value]Val{}, heap: map[string]*HArr{}, lazy: map[string]*Lazy{}, held: map[string]string{}, ghost: map[string]Val{},
-		visited: map[ssa.Value]string{}, dbg: map[string]Val{}, dbgAddr: map[string]Val{}, applied: map[string]bool{}}
+		visited: map[ssa.Value]string{}, dbg: map[string]Val{}, dbgAddr: map[string]Val{}, applied: map[string]bool{}, qfSeen: map[string]bool{}}
 	x.alloc0 = x.decls.Const("alloc0", "Int")
 	x.decls.Axiom("alloc0", "(< 0 alloc0)")
 	st.alloc = x.alloc0
@@ -666,7 +666,7 @@ func (eng *Engine) verifyLemma(con *Contract, bound int) *FuncResult {
 		}
 	}()
 	st := &State{env: map[ssa.Value]Val{}, heap: map[string]*HArr{}, lazy: map[string]*Lazy{}, held: map[string]string{}, ghost: map[string]Val{},
-		visited: map[ssa.Value]string{}, dbg: map[string]Val{}, dbgAddr: map[string]Val{}, applied: map[string]bool{}}
+		visited: map[ssa.Value]string{}, dbg: map[string]Val{}, dbgAddr: map[string]Val{}, applied: map[string]bool{}, qfSeen: map[string]bool{}}
 	x.alloc0 = x.decls.Const("alloc0", "Int")
 	st.alloc = x.alloc0
 	fr := &Frame{con: con, names: map[string]Val{}}
@@ -732,7 +732,7 @@ func (x *Exec) buildQuery(o *Oblig) *Query {
 	}
 	for i, t := range o.Idx {
 		add(t)
-		if i < 6 && !(t.Seq == "" && hasSeq[t.T]) {
+		if i < 8 && t.Seq != "" {
 			add(IdxT{sSub(t.T, "1"), t.Seq})
 			add(IdxT{sAdd(t.T, "1"), t.Seq})
 		}
@@ -815,8 +815,12 @@ func (res *FuncResult) discharge(timeoutMs int, workers int) {
 			defer wg.Done()
 			defer func() { <-sem }()
 			// first attempt: quantified assumptions replaced by their instances (quantifier-free); a proof here is a proof
-			r := solveText(j.text, timeoutMs)
 			cover := j.obs[0].Cover || j.obs[0].Canary
+			tmo := timeoutMs
+			if cover && tmo > 4000 {
+				tmo = 4000
+			}
+			r := solveText(j.text, tmo)
 			if r.Status != "unsat" && j.text2 != "" && !cover {
 				// second attempt with the quantified assumptions themselves
 				r2 := solveText(j.text2, timeoutMs)
@@ -835,7 +839,11 @@ func (res *FuncResult) discharge(timeoutMs int, workers int) {
 				o.Res = r
 			}
 			if keepDir != "" {
-				os.WriteFile(fmt.Sprintf("%s/%s.smt2", keepDir, sanitize(j.obs[0].Name)), []byte(j.text), 0644)
+				sfx := ""
+				if res.x.bound >= 0 {
+					sfx = ".r1"
+				}
+				os.WriteFile(fmt.Sprintf("%s/%s%s.smt2", keepDir, sanitize(j.obs[0].Name), sfx), []byte(j.text), 0644)
 			}
 		}(j)
 	}
@@ -851,13 +859,13 @@ func solveSide(text string) bool {
 	f.WriteString(text)
 	f.Close()
 	defer os.Remove(f.Name())
-	r := runSolverPlain(solvers[0], f.Name(), 1500)
+	r := runSolverPlain(solvers[0], f.Name(), 800)
 	if r.Status == "unsat" {
 		return true
 	}
 	if r.Status == "sat" {
 		return false
 	}
-	r = runSolverPlain(solvers[1], f.Name(), 1500)
+	r = runSolverPlain(solvers[1], f.Name(), 800)
 	return r.Status == "unsat"
 }
